@@ -233,6 +233,13 @@ def _episode(g, gs0, sup, ep, eo: EpisodeOut, clock, const, plan):
     K.set_stalls(ep.get("stall_p", 0.0), ep.get("stall_max", 0.0))
     if clock == const.Clock.SIMULATED:
         g.real_time_factor = ep.get("rtf", 0)
+    for op in ep.get("reconfig") or []:
+        # the user changes an *expected* delay between two episodes (phases are documented to be re-read at every reset)
+        if op[0] == "node":
+            g.nodes[op[1]].set_delay(delay=op[2])
+        else:
+            g.nodes[op[1]].inputs[op[2]].set_delay(delay=op[3])
+        K.count("reconfig_between_episodes")
     j = ep["eps_id"]
     gs_init = gs0.replace(eps=onp.int32(j), rng=jax.tree_util.tree_map(lambda k: jax.random.fold_in(k, j), gs0.rng)) if ep.get("fold_rng", True) else gs0.replace(eps=onp.int32(j))
     carried = getattr(plan.get("_ro"), "last_gs", None)
